@@ -189,12 +189,36 @@ def gen_handler_batch(ctx, n_cases):
         for _ in range(per):
             cfg["cases"].append(gen_case(rng, fam, L, npr))
         payloads.append(cfg)
+    # handler pools (Tagger.initialize: the configured handler + k deep copies), driven in an interleaved order
+    npools = max(8, n_cases // 25)
+    for i in range(npools):
+        fam = ["leaf", "summed", "cell_leaf", "cell_comp"][i % 4]
+        L = rng.choice([1.0, 10.0, 2.5])
+        npr = rng.choice([1, 2]) if fam in ("leaf", "cell_leaf") else rng.choice([2, 3])
+        k = rng.choice([2, 3])
+        cases = [gen_case(rng, fam, L, npr) for _ in range(12)]
+        for c in cases:
+            c["use_charge"] = True
+        rounds, ci = [], 0
+        while ci + 2 <= len(cases):
+            size = min(rng.randrange(2, k + 2), len(cases) - ci)
+            members = rng.sample(range(k + 1), size)
+            order = list(members)
+            rng.shuffle(order)
+            if order == members and size > 1:
+                order.reverse()
+            rounds.append({"members": members, "cases": list(range(ci, ci + size)), "out_order": order})
+            ci += size
+        payloads.append({"mode": "handlers", "family": fam, "L": f2b(L), "beta": f2b(rng.choice([1.0, 2.0])),
+                         "npr": npr, "roots": 2, "kb": None, "cells_per_side": rng.choice([5, 6, 7]),
+                         "est_seed": rng.randrange(1 << 30), "cases": cases,
+                         "pool": {"k": k, "rounds": rounds, "lifting": rng.choice(["ratio", "inside_first"])}})
     return payloads
 
 
 def gen_case(rng, fam, L, npr):
     d = rng.randrange(3)
-    speed = rng.choice([1.0, 1.0, 0.5, 2.0])
+    speed = rng.choice([0.5, 1.0, 2.5, 1.0 / 3.0, 7.0])      # velocity = speed * unit vector along a random axis
     vel = [0.0, 0.0, 0.0]
     vel[d] = speed
     ts = [float(rng.randrange(0, 50)), rng.random()]
@@ -288,6 +312,11 @@ def oracle(cfg, case, res):
     for c in pot_calls:
         if c["vel"] != avel:
             return "potential evaluated for a velocity that is not the active unit's", None
+    for c in res["bnd_calls"]:
+        if c["vel"] != avel:
+            return "bounding potential evaluated for the velocity %r, the active unit moves with %r: the bounding " \
+                   "event rate is not the derivative along the velocity (true and bounding rate must both scale " \
+                   "with the speed)" % ([b2f(x) for x in c["vel"]], [b2f(x) for x in avel]), None
     if composite:
         r = 0.0
         for c in pot_calls[:cfg["npr"]]:
@@ -350,7 +379,25 @@ def oracle(cfg, case, res):
             return "confirmed event did not hand the active velocity to exactly one leaf unit", None
         if not composite and newact[0]["id"] == active["id"]:
             return "confirmed two-leaf event left the velocity on the active unit", None
-    return None, {"deep": bool(res.get("deep")),
+    # cell-veto handlers: the candidate time is drawn at the rate total_rate * speed, i.e. the bounding event rate of
+    # the sampled cell as a TIME rate is _bounding_event_rate * speed, while the handler draws uniform(0,
+    # _bounding_event_rate) and compares with the time derivative (= space derivative * speed) of the potential.
+    # For speed != 1 the confirmation probability is then speed * max(0, true)/bound.  Recorded, see run().
+    veto_speed = None
+    if fam.startswith("veto") and unis:
+        speed = max(abs(b2f(x)) for x in avel)
+        if speed != 1.0:
+            veto_speed = {"handler": "LeafUnitCellVetoEventHandler" if fam == "veto_leaf"
+                          else "CompositeObjectCellVetoEventHandler", "speed": speed,
+                          "uniform_upper_end": b2f(unis[0][1]),
+                          "bounding_time_rate_of_the_proposal (cell bound * charge factor * speed)":
+                              b2f(res["veto_rate"]) * speed,
+                          "true_time_rate_compared": max(0.0, r),
+                          "confirmation_probability_of_the_code": min(1.0, max(0.0, r) / b2f(unis[0][1])),
+                          "max(0,true rate)/bounding rate": min(1.0, max(0.0, r) / (b2f(res["veto_rate"]) * speed)),
+                          "active_velocity": [b2f(x) for x in avel],
+                          "event_positions": {json.dumps(u["id"]): [b2f(x) for x in u["pos"]] for u in lin}}
+    return None, {"deep": bool(res.get("deep")), "veto_speed": veto_speed,
                   "fam": "FComposite" if composite else "FLeaf", "x": 0.0 if x is None else x, "r": r,
                   "conf": moved, "vin": vin, "vout": vout, "b": b2f(unis[0][1]) if unis else None,
                   "drawn": bool(unis)}
@@ -491,6 +538,10 @@ def run(ctx, replay_data=None):
                             stats["failed"] = stats.get("failed", 0) + 1
                             continue
                         summaries.append(s)
+                        if s.get("veto_speed"):
+                            stats["veto_speed"] = stats.get("veto_speed", 0) + 1
+                            stats.setdefault("veto_speed_example", s["veto_speed"])
+                        stats["pool"] = stats.get("pool", 0) + (1 if res.get("pool") else 0)
                         stats["deep"] = stats.get("deep", 0) + (1 if s["deep"] else 0)
                         stats["confirmed"] += 1 if s["conf"] else 0
                         stats["ties"] += 1 if s["drawn"] and s["x"] == max(0.0, s["r"]) else 0
@@ -521,10 +572,25 @@ def run(ctx, replay_data=None):
         if r.get("exc"):
             broken.append("real run %s did not complete: %s" % (r["config"], r["exc"][-300:]))
 
+    # ---- cell-veto handlers with speed != 1 (latent: every shipped configuration uses speed = 1.0)
+    if stats.get("veto_speed"):
+        text = ("cell-veto handlers (CellVetoEventHandler.send_event_time + Leaf/CompositeObject send_out_state) draw "
+                "uniform(0, cell bound * charge factor) and compare with the TIME derivative of the potential although "
+                "the candidate time is drawn at the rate total_rate * speed: for speed != 1 the confirmation "
+                "probability is speed * max(0, true rate)/bounding rate (%d of %d such runs; e.g. %s)"
+                % (stats["veto_speed"], stats["by_family"].get("veto_leaf", 0) + stats["by_family"].get("veto_comp", 0),
+                   json.dumps(stats["veto_speed_example"])[:400]))
+        hits = [k for k in C.known_open("C04") if "veto" in json.dumps(k).lower() and "speed" in json.dumps(k).lower()]
+        if hits:
+            C.known(ctx, hits[0]["id"], text)
+        else:
+            ctx.notes.append("NOT A VERDICT (awaiting a decision, no open known finding matches): " + text)
+
     # ---- verdict
     if fails:
         cfg, case, res, m = fails[0]
-        payload = dict(cfg, cases=[dict(case, umodes=[res["mode"]])])
+        # a pool schedule refers to all its cases: keep the whole pool as the replay
+        payload = cfg if cfg.get("pool") else dict(cfg, cases=[dict(case, umodes=[res["mode"]])])
         C.violation(ctx, "oracle", {"kind": "c04-handler", "payload": payload, "message": m,
                                     "n_failing": stats.get("failed", len(fails)), "family": cfg["family"]},
                     "C04 fails on the implementation (%s handler): %s" % (cfg["family"], m))
@@ -572,6 +638,11 @@ def run(ctx, replay_data=None):
         "samples": [{k: s[k] for k in ("fam", "x", "r", "b", "conf")} for s in summaries[:5]],
         "input_distribution": {"handler_runs": stats["runs"], "by_family": stats["by_family"],
                                "handler_runs_on_copy.deepcopy(handler)": stats.get("deep", 0),
+                               "handler_runs_in_interleaved_pools (handler + 2..3 deep copies)": stats.get("pool", 0),
+                               "active_speeds": [0.5, 1.0, 2.5, 1.0 / 3.0, 7.0],
+                               "cell_veto_runs_with_speed_not_1 (confirmation probability off by the factor speed)":
+                                   stats.get("veto_speed", 0),
+                               "cell_veto_speed_example": stats.get("veto_speed_example"),
                                "confirmed": stats["confirmed"], "ties_x_equals_rate": stats["ties"],
                                "true_rate_not_positive": stats["negative_rate"],
                                "runs_with_true_rate_above_bound (lowered prefactor on purpose)": stats["exceeded"],
